@@ -550,3 +550,101 @@ M("C07", "router-response-unreachable", C2, _ROUTER, _R1_GUARDS.replace(
     "        if isinstance(http, HttpResponse):\n            return self.transform_response\n", "").replace(
     "        return self.transform_submit\n",
     "        if isinstance(http, HttpResponse):\n            return self.transform_response\n        return self.transform_submit\n"), "C07.R8")
+
+# =============================================================================================== R9: the whole transformed request is sent
+# (every field of the HttpRequest the transform returned - method, uri, params, headers, body - flows into the one call
+# that puts it on the wire: a profile may place the metadata / id / output in any of uri, params, headers and body)
+_SEND_GET = (
+    "            response = httpx.request(\n"
+    "                req.method, url, headers=req.headers, params=params, content=req.body, verify=self.verify\n"
+    "            )\n"
+    "            response.raise_for_status()\n"
+    "        except httpx.RequestError as exc:\n"
+    "            self.logger.error(\"An error occurred while requesting %r : %r\", exc.request.url, exc)\n"
+    "        except httpx.HTTPStatusError as exc:\n"
+    "            self.logger.error(\n"
+    "                \"HttpStatusError, response %s while requesting %r.\", exc.response.status_code, exc.request.url\n"
+    "            )\n"
+    "        else:\n"
+)
+_SEND_POST = (
+    "        # Construct url for callback\n"
+    "        url = urllib.parse.urljoin(self.base_url, req.uri.decode())\n"
+    "        params = {k.decode(): v.decode() for k, v in req.params.items()}\n"
+    "        try:\n"
+    "            response = httpx.request(\n"
+    "                req.method, url, headers=req.headers, params=params, content=req.body, verify=self.verify\n"
+    "            )\n"
+)
+_SEND_TAIL = _SEND_GET[_SEND_GET.index("            response.raise_for_status()"):]
+# the callback is sent without the query parameters the transform produced ('the id goes into the URL anyway')
+M("C07", "callback-params-not-sent", CL, _SEND_POST, _SEND_POST.replace(", params=params,", ","), "C07.R9")
+# the check-in is sent with a fixed set of headers instead of the transformed ones (a `header "Cookie"` placement is lost)
+M("C07", "checkin-static-headers-sent", CL, _SEND_GET,
+  _SEND_GET.replace("headers=req.headers,", "headers={\"User-Agent\": self.user_agent, \"Host\": self.host_header},"), "C07.R9")
+# the check-in goes to the configured URI, not to the URI of the transformed request (a `uri-append` placement is lost)
+M("C07", "checkin-url-from-configured-uri", CL,
+  "        url = urllib.parse.urljoin(self.base_url, req.uri.decode())\n        params = {k.decode(): v.decode() for k, v in req.params.items()}\n        try:\n            self.logger.debug(",
+  "        url = urllib.parse.urljoin(self.base_url, self.get_uri)\n        params = {k.decode(): v.decode() for k, v in req.params.items()}\n        try:\n            self.logger.debug(", "C07.R9")
+# a body only 'when the verb has one': located, the body is not passed on the GET branch -> two send calls, judged on
+# the widest one; the narrower one is where the missing field goes - not a violation, the rule is undecided or silent
+T("C07", "twin-send-prepared-request", CL, _SEND_GET,
+  "            prepared = httpx.Request(req.method, url, headers=req.headers, params=params, content=req.body)\n"
+  "            with httpx.Client(verify=self.verify) as session:\n"
+  "                response = session.send(prepared)\n" + _SEND_TAIL)
+T("C07", "twin-send-keyword-dictionary", CL, _SEND_GET,
+  "            options = dict(headers=req.headers, params=params, verify=self.verify)\n"
+  "            options[\"content\"] = req.body\n"
+  "            response = httpx.request(req.method, url, **options)\n" + _SEND_TAIL)
+T("C07", "twin-send-unpacked-request", CL, _SEND_POST,
+  "        method, uri, query, headers, body = req.method, req.uri, req.params, req.headers, req.body\n"
+  "        url = urllib.parse.urljoin(self.base_url, uri.decode())\n"
+  "        params = {k.decode(): v.decode() for k, v in query.items()}\n"
+  "        try:\n"
+  "            response = httpx.request(method, url, headers=headers, params=params, content=body, verify=self.verify)\n")
+# the sending block of both methods moved into one new method that is given the whole request
+_SEND_HELPER = (
+    "    def _exchange(self, req: HttpRequest) -> httpx.Response:\n"
+    "        url = urllib.parse.urljoin(self.base_url, req.uri.decode())\n"
+    "        params = {k.decode(): v.decode() for k, v in req.params.items()}\n"
+    "        response = httpx.request(req.method, url, headers=req.headers, params=params, content=req.body, verify=self.verify)\n"
+    "        response.raise_for_status()\n"
+    "        return response\n\n"
+)
+T("C07", "twin-send-extracted-method", CL, "", "", edits=[
+    (CL, "    def get_task(self) -> Optional[TaskPacket]:\n", _SEND_HELPER + "    def get_task(self) -> Optional[TaskPacket]:\n"),
+    (CL, _SEND_GET, "            response = self._exchange(req)\n" + _SEND_TAIL[len("            response.raise_for_status()\n"):]),
+    (CL, _SEND_POST, "        try:\n            self._exchange(req)\n"),
+])
+# ... and the same extraction with a method that builds the URL from the request but takes headers from the client
+M("C07", "send-extracted-method-own-headers", CL, "", "", "C07.R9", edits=[
+    (CL, "    def get_task(self) -> Optional[TaskPacket]:\n",
+     _SEND_HELPER.replace("headers=req.headers,", "headers={b\"User-Agent\": self.user_agent.encode()},") + "    def get_task(self) -> Optional[TaskPacket]:\n"),
+    (CL, _SEND_GET, "            response = self._exchange(req)\n" + _SEND_TAIL[len("            response.raise_for_status()\n"):]),
+    (CL, _SEND_POST, "        try:\n            self._exchange(req)\n"),
+])
+
+# =============================================================================================== R10: the parser cuts at the first separator
+# (body = everything after the first blank line, header value = everything after the first `: ` of its line, header name =
+# the text before it: body and header values are payload and may contain the separator again)
+_HDR = "        key, _, value = header.partition(b\": \")\n        headers[key] = value\n"
+_BODY = "    header_data, _, body = data.partition(b\"\\r\\n\\r\\n\")\n"
+# the line is cut at its LAST `: ` - the name swallows the front of a value that contains the separator
+M("C07", "header-cut-at-last-separator", C2, _HDR, "        key, _, value = header.rpartition(b\": \")\n        headers[key] = value\n", "C07.R10")
+# index 1 of an unlimited split: the value ends at its own first `: `
+M("C07", "header-value-second-piece", C2, _HDR,
+  "        pieces = header.split(b\": \")\n        key = pieces[0]\n        value = pieces[1] if len(pieces) > 1 else b\"\"\n        headers[key] = value\n", "C07.R10")
+# the body is the second CRLFCRLF-separated block: binary output that contains a blank line is truncated
+M("C07", "body-second-block", C2, _BODY,
+  "    blocks = data.split(b\"\\r\\n\\r\\n\")\n    header_data = blocks[0]\n    body = blocks[1] if len(blocks) > 1 else b\"\"\n", "C07.R10")
+M("C07", "body-after-last-blank-line", C2, _BODY, "    header_data, _, body = data.rpartition(b\"\\r\\n\\r\\n\")\n", "C07.R10")
+# the same cuts spelled with a limited split / find + slices
+T("C07", "twin-header-split-limit-one", C2, _HDR,
+  "        pieces = header.split(b\": \", 1)\n        key = pieces[0]\n        value = pieces[1] if len(pieces) == 2 else b\"\"\n        headers[key] = value\n")
+T("C07", "twin-header-find-and-slice", C2, _HDR,
+  "        at = header.find(b\": \")\n        if at < 0:\n            headers[header] = b\"\"\n            continue\n"
+  "        headers[header[:at]] = header[at + 2 :]\n")
+T("C07", "twin-body-split-limit-one", C2, _BODY,
+  "    blocks = data.split(b\"\\r\\n\\r\\n\", 1)\n    header_data = blocks[0]\n    body = blocks[1] if len(blocks) == 2 else b\"\"\n")
+T("C07", "twin-header-unpacked-later", C2, _HDR,
+  "        cut = header.partition(b\": \")\n        key = cut[0]\n        value = cut[-1]\n        headers[key] = value\n")
